@@ -36,6 +36,14 @@ func (t *target) Begin() (driver.Tx, error)           { return nil, errors.New("
 func (t *target) Close() error                        { atomic.AddInt32(&t.closes, 1); return nil }
 func (t *target) IsValid() bool                       { return atomic.LoadInt32(&t.closes) == 0 }
 
+// barrier lines the racing goroutines up more tightly than a channel wake-up does
+func barrier(ready *int32, n int32) {
+	atomic.AddInt32(ready, 1)
+	for atomic.LoadInt32(ready) < n {
+		runtime.Gosched()
+	}
+}
+
 func b(x bool) int {
 	if x {
 		return 1
@@ -128,14 +136,56 @@ func main() {
 			h := sqlpkg.VerifNewXAHold(tg, fmt.Sprintf("10.0.0.2:8091:%d", r), uint64(r+1))
 			h.Keep()
 			y1, y2, y3 := rnd.Intn(3), rnd.Intn(3), rnd.Intn(3)
+			if r%5 == 3 {
+				// second family: the pool has given the held connection up; phase two's release races the checker's
+				// CloseForce (both end in the release steps, both may close the orphan: exactly one close)
+				v := call(h, "valid")
+				sv := state(h, tg)
+				call(h, "close")
+				sc := state(h, tg)
+				var wg sync.WaitGroup
+				var ready int32
+				wg.Add(2)
+				go func() {
+					defer wg.Done()
+					barrier(&ready, 2)
+					for i := 0; i < y1; i++ {
+						runtime.Gosched()
+					}
+					call(h, "release")
+				}()
+				go func() {
+					defer wg.Done()
+					barrier(&ready, 2)
+					for i := 0; i < y2; i++ {
+						runtime.Gosched()
+					}
+					call(h, "force")
+				}()
+				wg.Wait()
+				st := state(h, tg)
+				key := fmt.Sprint("B", v, sv, sc, st)
+				if seen[key] {
+					continue
+				}
+				seen[key] = true
+				t := w.Begin(map[string]interface{}{"i": pi, "round": r}, "par-force")
+				t.Add("Start")
+				t.Add("Calls", "procs", []string{"keep"}, "res", "-", "kept", 1, "pclosed", 0, "phys", 0, "keeper", 1, "closes", 0)
+				t.Add("Calls", append([]interface{}{"procs", []string{"valid"}, "res", v}, sv...)...)
+				t.Add("Calls", append([]interface{}{"procs", []string{"close"}, "res", "-"}, sc...)...)
+				t.Add("Calls", append([]interface{}{"procs", []string{"release", "force"}, "res", "-"}, st...)...)
+				t.Close()
+				continue
+			}
 			withForce := r%5 == 4
 			var wg sync.WaitGroup
-			start := make(chan struct{})
+			var ready int32
 			vres := "-"
 			wg.Add(2)
 			go func() {
 				defer wg.Done()
-				<-start
+				barrier(&ready, 2)
 				for i := 0; i < y1; i++ {
 					runtime.Gosched()
 				}
@@ -147,14 +197,13 @@ func main() {
 			}()
 			go func() {
 				defer wg.Done()
-				<-start
+				barrier(&ready, 2)
 				for i := 0; i < y3; i++ {
 					runtime.Gosched()
 				}
 				call(h, "release")
 			}()
 			procs := []string{"valid", "close", "release"}
-			close(start)
 			wg.Wait()
 			st := state(h, tg)
 			var st2 []interface{}
